@@ -4,7 +4,9 @@
    nouts -- generated) satisfy: 0 <= nouts <= number of block variables; the result is a permutation
    of basic U composite; the variables at positions < nouts are exactly those that are not
    input-only (outputs first); and a variable that is not an output is a basic variable that is
-   live into the statement and NOT live after it (so nothing live is ever dropped from the outputs). *)
+   live into the statement, NOT live after it and NOT declared global / nonlocal in the function (so
+   nothing live, and nothing that stays observable after the function returns, is ever dropped from
+   the outputs). *)
 From Coq Require Import List String Bool Arith ZArith Permutation.
 Import ListNotations.
 Require Import MV.Contract.ContractSyntax MV.Contract.StateModel MV.Contract.StateProofs MV.Contract.Emit
@@ -19,22 +21,24 @@ Theorem nouts_bounds_and_order : forall (r : sets) (vars : list string) (nouts :
   Permutation vars (sunion (s_basic r) (s_composite r)) /\
   (forall i q, nth_error vars i = Some q -> (i < nouts <-> ~ In q (input_only block_vars_gen r))) /\
   (forall q, In q (input_only block_vars_gen r) ->
-             In q (s_basic r) /\ In q (s_live_in r) /\ ~ In q (s_live_out r)).
+             In q (s_basic r) /\ In q (s_live_in r) /\ ~ In q (s_live_out r)
+             /\ ~ In q (s_globals r) /\ ~ In q (s_nonlocals r)).
 Proof.
   intros r vars nouts Nb Nc H.
   assert (Hs : interp block_vars_gen r (bv_scope block_vars_gen) = Some (sunion (s_basic r) (s_composite r))) by reflexivity.
   assert (Hi : interp block_vars_gen r (bv_input block_vars_gen) =
-               Some (sinter (s_basic r) (sdiff (s_live_in r) (s_live_out r)))) by reflexivity.
-  assert (Hio : input_only block_vars_gen r = sinter (s_basic r) (sdiff (s_live_in r) (s_live_out r))) by reflexivity.
+               Some (sinter (s_basic r) (sdiff (sdiff (sdiff (s_live_in r) (s_live_out r)) (s_globals r)) (s_nonlocals r)))) by reflexivity.
+  assert (Hio : input_only block_vars_gen r = sinter (s_basic r) (sdiff (sdiff (sdiff (s_live_in r) (s_live_out r)) (s_globals r)) (s_nonlocals r))) by reflexivity.
   destruct (block_vars_spec block_vars_gen r _ _ vars nouts Hs Hi H) as [A [B C]].
   - apply NoDup_sunion; auto.
   - apply NoDup_sinter; auto.
   - intros x Hx. apply In_sinter in Hx. apply In_sunion. left; tauto.
   - rewrite Hio. split; [auto | split; [auto | split; [auto | ]]].
-    intros q Hq. apply In_sinter in Hq. destruct Hq as [Hq1 Hq2]. apply In_sdiff in Hq2. tauto.
+    intros q Hq. apply In_sinter in Hq. destruct Hq as [Hq1 Hq2]. apply In_sdiff in Hq2. destruct Hq2 as [Hq2 Hn].
+    apply In_sdiff in Hq2. destruct Hq2 as [Hq2 Hg]. apply In_sdiff in Hq2. tauto.
 Qed.
 Example nouts_nonvacuous :
-  block_vars block_vars_gen {| s_basic := ["x"; "a"; "j"]; s_composite := ["o.v"]; s_live_in := ["a"; "x"; "o"]; s_live_out := ["x"] |}
+  block_vars block_vars_gen {| s_basic := ["x"; "a"; "j"]; s_composite := ["o.v"]; s_live_in := ["a"; "x"; "o"]; s_live_out := ["x"]; s_globals := []; s_nonlocals := [] |}
   = Some (["j"; "o.v"; "x"; "a"], 3).
 Proof. vm_compute; reflexivity. Qed.
 Print Assumptions nouts_bounds_and_order.
